@@ -101,6 +101,39 @@ namespace
         s.bytes = 0;
         o.len = 9;
     }
+    // the allocator obtained through rebind<U>::other (what containers use) keeps the alignment
+    template <class T, size_t A>
+    void do_ralloc(const vd::Args& a, vd::Out& o)
+    {
+        using R = typename xsimd::aligned_allocator<T, A>::template rebind<double>::other;
+        using R2 = typename std::allocator_traits<xsimd::aligned_allocator<T, A>>::template rebind_alloc<double>;
+        R al;
+        R2 al2;
+        uint64_t n = vd::ld<uint64_t>(a.in[0]);
+        memset(o.bytes, 0, 40);
+        o.len = 29;
+        o.bytes[25] = (uint8_t)sizeof(double);
+        try
+        {
+            double* p = (a.imm & 1) ? al2.allocate(n) : al.allocate(n);
+            o.bytes[0] = 1;
+            vd::st<uint64_t>(o.bytes + 1, (uint64_t)(uintptr_t)p);
+            vd::st<uint64_t>(o.bytes + 9, (uint64_t)(p ? malloc_usable_size(p) : 0));
+            vd::st<uint64_t>(o.bytes + 17, n * sizeof(double));
+            o.bytes[26] = 1;
+            o.bytes[27] = (al == xsimd::aligned_allocator<T, A>()) ? 1 : 0;     // compares equal to the allocator it was rebound from
+            o.bytes[28] = (al2 == xsimd::aligned_allocator<T, A>()) ? 1 : 0;
+            if (a.imm & 1)
+                al2.deallocate(p, n);
+            else
+                al.deallocate(p, n);
+        }
+        catch (std::bad_alloc&)
+        {
+            o.bytes[0] = 2;
+        }
+    }
+
     template <class T, size_t A>
     void reg_ta(vd::ArchTable& tab, const char* tn)
     {
@@ -110,6 +143,8 @@ namespace
         tab.entries.push_back({ "al", names.back().c_str(), "-", &do_alloc<T, A> });
         names.push_back(std::string("deallocate:") + tn + ":" + std::to_string(A));
         tab.entries.push_back({ "al", names.back().c_str(), "-", &do_free<T, A> });
+        names.push_back(std::string("rebind:") + tn + ":" + std::to_string(A));
+        tab.entries.push_back({ "al", names.back().c_str(), "-", &do_ralloc<T, A> });
         names.push_back(std::string("maxsize:") + tn + ":" + std::to_string(A));
         tab.entries.push_back({ "al", names.back().c_str(), "-", +[](const vd::Args&, vd::Out& o)
                                 { xsimd::aligned_allocator<T, A> al; vd::st<uint64_t>(o.bytes, (uint64_t)al.max_size()); o.bytes[8] = (uint8_t)sizeof(T); o.len = 9; } });
